@@ -2,6 +2,7 @@
   C04 — Hello properties faithfully encode the interface's attributes.
 -/
 import LLTD.Lemmas.Obs
+import LLTD.Model.LinuxPort
 
 namespace LLTD.C04
 open LLTD LLTD.Spec
@@ -113,6 +114,31 @@ theorem bridge (c : Cfg) (g : Glob) (w : World) (st : St) (img : List Nat) (hc :
   rw [hsends]
   simp only [List.filterMap_cons, List.filterMap_nil, decodeHello_helloFrame c g _ _ _ _ hc h1 h2, List.all_cons, List.all_nil, Bool.and_true]
   simp [roundtrip c g hr, obsOf]
+
+/-! ## The Linux platform layer -/
+
+/-- what the Linux port supplies is the interface record without distortion: address, MTU and type copied, link
+    speed in units of 100 bit/s, duplex and loopback mapped to their characteristics bits — for every record -/
+theorem linux_port (r : LinuxPort.Rec) :
+    let s := LinuxPort.supplied r
+    s.mac = r.mac ∧ s.mtu = r.mtu ∧ s.ifType = r.ifType ∧ s.speed100 * 100 ≤ r.linkSpeed ∧ r.linkSpeed < (s.speed100 + 1) * 100 ∧
+    (s.flags / 0x2000 % 2 = 1 ↔ r.mediumType / 16 % 2 = 1) ∧ (s.flags / 0x800 % 2 = 1 ↔ r.flags / 8 % 2 = 1) ∧
+    s.flags % 0x800 = 0 ∧ s.flags < 0x4000 := by
+  simp only [LinuxPort.supplied]
+  refine ⟨trivial, trivial, trivial, ?_, ?_, ?_, ?_, ?_, ?_⟩
+  · exact Nat.div_mul_le_self _ _
+  · have := Nat.lt_div_mul_add (a := r.linkSpeed) (b := 100) (by decide); omega
+  · split <;> split <;> simp_all <;> omega
+  · split <;> split <;> simp_all <;> omega
+  · split <;> split <;> omega
+  · split <;> split <;> omega
+
+/-- the characteristics word the Linux port's bits end up as in the Hello (upper half of the 32-bit word) -/
+theorem linux_flags_in_hello (r : LinuxPort.Rec) :
+    unbe (be 4 (((LinuxPort.supplied r).flags * 65536) % u32)) = (LinuxPort.supplied r).flags * 65536 := by
+  rw [characteristics_word]
+  have := (linux_port r).2.2.2.2.2.2.2.2
+  rw [Nat.mod_eq_of_lt (by omega)]
 
 /-- non-vacuity: a Wi-Fi record with a negative signal strength -/
 example : CfgRange { wifi := true, rssi := -60, rate := 108, mode := 1, iftype := 71, speed := 540000 } :=
